@@ -163,7 +163,8 @@ class Agg:
         self.sigs = set()
         self.nontrivial_sigs = set()
         self.verdicts = {'OK': 0, 'VIOLATION': 0, 'KNOWN': 0, 'HARNESS': 0,
-                         'UNCONFIRMED': 0}
+                         'UNCONFIRMED': 0, 'SLOW': 0}
+        self.slow = []
         self.unconfirmed = []
         self.samples = []
         self.violations = []
@@ -205,6 +206,8 @@ class Agg:
             self.harness.append((key, res))
         elif res['verdict'] == 'UNCONFIRMED':
             self.unconfirmed.append((key, res))
+        elif res['verdict'] == 'SLOW':
+            self.slow.append((key, res.get('seed')))
 
 
 def run_variant(key, base_seed, budget_s, max_runs, workers, agg, known,
@@ -400,6 +403,15 @@ def run_property(pid, tier, base_seed, workers=16, budget_override=None,
                      f'{r0["unconfirmed"]["subject"]}] but the same plans '
                      'do not fail when executed from a clean process state: '
                      'state shared between runs of one worker process'}))
+        agg.verdicts['HARNESS'] += 1
+    nslow = agg.verdicts.get('SLOW', 0)
+    if nslow > max(3, agg.evaluations // 200):
+        # abandoning a few pathologically slow runs is bookkeeping;
+        # abandoning many would mean the batch explored less than it says
+        agg.harness.append((agg.slow[0][0], {
+            'verdict': 'HARNESS', 'seed': agg.slow[0][1],
+            'error': f'{nslow} of {agg.evaluations} runs were abandoned as '
+                     'too slow'}))
         agg.verdicts['HARNESS'] += 1
     if fidelity and fidelity.get('mismatches'):
         # the real pool disagrees with the serial path: a genuine violation
